@@ -470,6 +470,15 @@ Section MuxProofs.
     reflexivity.
   Qed.
 
+  (** the exact rule host is compared byte for byte (case-sensitively) with the port-stripped Host *)
+  Theorem host_exact : forall r rq,
+    ru_host r <> "" -> ru_host_re r = "" ->
+    (host_match r rq = true <-> ru_host r = strip_port (rq_host rq)).
+  Proof.
+    intros r rq Hh Hre. unfold Mux.host_match. rewrite (nonempty_true _ Hh), Hre. cbn.
+    rewrite orb_false_r. apply String.eqb_eq.
+  Qed.
+
   (** validated configurations never reach the nil-regexp dereference of rewrite *)
   Lemma in_entries : forall rs r p, In (r, p) (ents rs) -> In r rs /\ In p (ru_paths r).
   Proof.
